@@ -241,3 +241,65 @@ pub fn ppoint_ts_le(v: &Vec<RecordHeader>, ts: u64) -> (r: usize)
 pub proof fn assume_stat_counters_in_range(count: usize, allocated: usize)
     ensures count < usize::MAX, allocated <= usize::MAX - CAP_DELTA_MAX
 { }
+
+
+// ---- layout of the filters section (meta block) of an index file: [u64 len(range)] [range] [bloom] ----
+// bincode (fixed-int, little endian) of a u64 and back
+pub uninterp spec fn u64_le(v: u64) -> Seq<u8>;
+pub uninterp spec fn u64_of(b: Seq<u8>) -> u64;
+#[verifier::external_body]
+pub proof fn axiom_u64_le(v: u64) ensures u64_le(v).len() == 8, u64_of(u64_le(v)) == v { }
+// where the serialised bloom filter starts inside a meta block
+pub open spec fn filters_bloom_offset(meta: Seq<u8>) -> int { 8 + u64_of(meta.subrange(0, 8)) }
+// bincode::serialize(&u64)
+#[verifier::external_body]
+pub fn ser_u64(v: u64) -> (r: Result<Vec<u8>, VErr>) ensures r.is_ok() ==> r->Ok_0@ == u64_le(v) { unimplemented!() }
+// bincode::deserialize::<usize>(&buf)
+#[verifier::external_body]
+pub fn deser_usize(b: &[u8]) -> (r: Result<usize, VErr>) ensures r.is_ok() ==> r->Ok_0 == u64_of(b@) { unimplemented!() }
+// <[u8]>::split_at(mid): PANICS if mid > len
+#[verifier::external_body]
+pub fn slice_split_at(b: &[u8], mid: usize) -> (r: (&[u8], &[u8]))
+    requires mid <= b@.len()
+    ensures r.0@ == b@.subrange(0, mid as int), r.1@ == b@.subrange(mid as int, b@.len() as int)
+{ unimplemented!() }
+impl RangeFilter {
+    pub uninterp spec fn raw(&self) -> Seq<u8>;   // its bincode image
+    pub uninterp spec fn src(&self) -> Seq<u8>;   // the bytes it was decoded from
+    // (sizes: buffers that exist in memory; ASSUMED far below usize::MAX)
+    #[verifier::external_body]
+    pub fn to_raw(&self) -> (r: Result<Vec<u8>, VErr>) ensures r.is_ok() ==> r->Ok_0@ == self.raw() && r->Ok_0@.len() <= 0x1000_0000 { unimplemented!() }
+    #[verifier::external_body]
+    pub fn from_raw(b: &[u8]) -> (r: Result<RangeFilter, VErr>) ensures r.is_ok() ==> r->Ok_0.src() == b@ { unimplemented!() }
+}
+impl Bloom {
+    pub uninterp spec fn src(&self) -> Seq<u8>;
+    #[verifier::external_body]
+    pub fn from_raw(b: &[u8]) -> (r: Result<Bloom, VErr>) ensures r.is_ok() ==> r->Ok_0.src() == b@ { unimplemented!() }
+}
+impl CombinedFilter {
+    pub uninterp spec fn range_sp(&self) -> RangeFilter;
+    // bincode image of the bloom part (of `Bloom::empty()` when there is none)
+    pub uninterp spec fn bloom_raw(&self) -> Seq<u8>;
+    #[verifier::external_body]
+    pub fn range(&self) -> (r: &RangeFilter) ensures *r == self.range_sp() { unimplemented!() }
+}
+// `self.filter.bloom().as_ref().unwrap_or(&Bloom::empty()).to_raw()`
+#[verifier::external_body]
+pub fn bloom_raw_or_empty(f: &CombinedFilter) -> (r: Result<Vec<u8>, VErr>)
+    ensures r.is_ok() ==> r->Ok_0@ == f.bloom_raw() && r->Ok_0@.len() <= 0x4000_0000_0000
+{ unimplemented!() }
+// TRUSTED (bincode round trip of Bloom / RangeFilter), stated over the LAYOUT of the meta block:
+// a block laid out as [len][range][bloom] covers every key of the filter it was made from ...
+#[verifier::external_body]
+pub proof fn axiom_ser_keys(f: CombinedFilter, buf: Seq<u8>)
+    requires buf == u64_le(f.range_sp().raw().len() as u64) + f.range_sp().raw() + f.bloom_raw()
+    ensures f.keys().subset_of(ser_keys(buf))
+{ }
+// ... and filters decoded from exactly those two sections of a block cover what the block covers
+#[verifier::external_body]
+pub proof fn axiom_deser_keys(buf: Seq<u8>, b: Bloom, r: RangeFilter)
+    requires 8 <= filters_bloom_offset(buf) <= buf.len(),
+        r.src() == buf.subrange(8, filters_bloom_offset(buf)), b.src() == buf.subrange(filters_bloom_offset(buf), buf.len() as int)
+    ensures ser_keys(buf).subset_of(combined_keys(Some(b), r)), ser_keys(buf).subset_of(combined_keys(None, r))
+{ }
